@@ -352,6 +352,27 @@ fn generate(a: &Args) -> i32 {
             }
         }
     }
+    // reader snippets from the ring (3 KiB + read-ahead): the retained window starts in the MIDDLE of a line, and that
+    // partial line holds malformed UTF-8 followed by multi-byte text before its first line break; the error is the bad
+    // byte itself, or a type error just before it (bad bytes only in the read-ahead)
+    for nbad in 1..=3usize {
+        for follow in ["€€€€€", "éééé", "😀😀"] {
+            for early_type_error in [false, true] {
+                let mut b: Vec<u8> = Vec::new();
+                b.extend_from_slice(b"k0: 1\n");
+                if early_type_error { b.extend_from_slice(b"a: notanint "); } else { b.extend_from_slice(b"s: \""); }
+                b.extend_from_slice(&vec![b'a'; if early_type_error { 200 } else { 4200 }]);
+                b.extend_from_slice(&vec![0xffu8; nbad]);
+                b.extend_from_slice(follow.as_bytes());
+                b.extend_from_slice(b"\nnext: 2\nlast: 3\n");
+                inputs.push(b.clone());
+                // the same with a long valid head in front, so that the ring has wrapped before the line starts
+                let mut c: Vec<u8> = (0..400).flat_map(|i| format!("h{i}: {i}\n").into_bytes()).collect();
+                c.extend_from_slice(&b);
+                inputs.push(c);
+            }
+        }
+    }
     let deep = deep_inputs();
     let n_short = inputs.len();
     for (_, b) in &deep { inputs.push(b.clone()); }
